@@ -390,7 +390,22 @@ def parser_table(ctx, p):
                     for c in p.calls:
                         if c.path == "core::str::<impl str>::split" and c.args[1]["k"] == "const" and c.args[1].get("bits") == "10":
                             split_nl = True
-    res = {"table": table, "end": end, "pushes": pushes, "split_newline": split_nl, "loop": lp, "mode_local": mode_local}
+    truncated = set()
+
+    def _unnumbered_truncations(o):
+        out = set()
+        for st in o[1:]:
+            if st == ("adapt", "enumerate"):
+                break       # numbered before anything is taken out
+            if st[0] == "truncate":
+                out.add(st[1])
+        return out
+    for o in lp["iter"]:
+        truncated |= _unnumbered_truncations(o)
+        if o[0][0] == "call" and erase_generics(o[0][3]) == "std::iter::Iterator::collect":
+            for o2 in p.origins_of_operand(p.call_at[o[0][2]].args[0]):
+                truncated |= _unnumbered_truncations(o2)
+    res = {"table": table, "end": end, "pushes": pushes, "split_newline": split_nl, "loop": lp, "mode_local": mode_local, "truncated": truncated}
     ctx._ptable = res
     return res
 
@@ -501,6 +516,10 @@ def c14_r2(ctx):
     t = parser_table(ctx, p)
     lp = t["loop"]
     counter = None
+    if t["truncated"] - {"peekable"}:
+        # (the numbering counts the lines the loop sees: if some were taken out before, the
+        #  numbers no longer are positions in the file)
+        ctx.viol((p.id, "lines-dropped-before-counting"), "lines are taken out of the input (%s) before the state machine counts them: every error is reported at a line number that is not the line's position in the file" % ", ".join(sorted(t["truncated"])), p.where(lp["header"]))
     if _enumerate_line_numbers(ctx, p, lp):
         return
     for var in ("UnexpectedEmptyLine", "UnexpectedExtraColon", "UnexpectedEndOfFileMidTargets", "UnexpectedEndOfFileMidSources", "UnexpectedEndOfFileMidCommand"):
